@@ -107,7 +107,13 @@ class Ctx:
                 txt = open(gm).read().replace("=> /repo", "=> " + ALT_REPO)
                 open(gm, "w").write(txt)
             harness = alt
-        shutil.copy(os.path.join(REPO, "go.sum"), os.path.join(harness, "go.sum"))
+        # several checks may build at the same time: never expose a half-written go.sum
+        src, dst = os.path.join(REPO, "go.sum"), os.path.join(harness, "go.sum")
+        want = open(src, "rb").read()
+        if not os.path.exists(dst) or open(dst, "rb").read() != want:
+            tmp = f"{dst}.{os.getpid()}.tmp"
+            open(tmp, "wb").write(want)
+            os.replace(tmp, dst)
         p = subprocess.run(cmd, cwd=harness, env=env, capture_output=True, text=True)
         if p.returncode != 0:
             raise Infra("go build failed:\n" + p.stdout[-3000:] + p.stderr[-3000:])
